@@ -52,6 +52,17 @@ SourcePre(seed, r, w) == seed \o << r >> \o LEBytes(w, 4)
 
 \* pivot = bytes_to_uint64(digest[0:8]) % index_count
 PivotOf(digest, n) == LEMod(SubSeq(digest, 1, 8), n)
+
+\* the same for any n < 2^31: bit-wise Horner scheme whose intermediate values stay below n
+AddMod(a, b, n) == IF a >= n - b THEN a - (n - b) ELSE a + b            \* (a + b) % n for 0 <= a, b < n
+RECURSIVE LEModBigFrom(_, _, _)
+LEModBigFrom(bs, n, k) ==                                               \* (bits 63 .. k of the little-endian value) % n
+    IF k > 63 THEN 0
+    ELSE LET hi == LEModBigFrom(bs, n, k + 1)
+             d == AddMod(hi, hi, n)
+             b == (bs[(k \div 8) + 1] \div (2 ^ (k % 8))) % 2
+         IN IF b = 1 THEN AddMod(d, 1 % n, n) ELSE d
+PivotOfBig(digest, n) == LEModBigFrom(SubSeq(digest, 1, 8), n, 0)
 \* byte = source[(position % 256) // 8];  bit = (byte >> (position % 8)) % 2
 BitOf(source, pos) == (source[((pos % 256) \div 8) + 1] \div (2 ^ (pos % 8))) % 2
 
@@ -65,7 +76,11 @@ BitTable(n, R, seed, HT) ==
 (**************************** abstract level ******************************)
 (* piv \in [0..R-1 -> 0..n-1],  bit \in [0..R-1 -> [0..n-1 -> {0,1}]]      *)
 
-Flip(i, n, p) == (p + n - i) % n
+\* flip = (pivot + index_count - index) % index_count, written so that no intermediate value exceeds index_count
+\* (TLC integers are 32-bit; list sizes up to 2^31 - 1 are used); equal to the formula of the text for 0 <= i, p < n
+\* (checked: InvFlip in MC_Shuffle)
+Flip(i, n, p) == IF p >= i THEN p - i ELSE p + (n - i)
+FlipText(i, n, p) == (p + n - i) % n
 
 \* one iteration of the loop body of compute_shuffled_index
 RoundStep(i, n, p, b) ==
@@ -181,12 +196,27 @@ PivotDigest(p, n, salt) ==
 
 \* 32-byte digest of window w holding coin b[pos] at bit (pos % 256); positions >= n get junk coins
 SourceDigest(b, w, n, salt) ==
-    LET coin(pos) == IF pos < n THEN b[pos] ELSE (Filler(salt, pos) % 2)
+    LET coin(pos) == IF pos < n THEN b[pos] ELSE (Filler(salt, pos % 251) % 2)
         byteAt(j) == coin(w * 256 + 8 * j) + 2 * coin(w * 256 + 8 * j + 1)
                      + 4 * coin(w * 256 + 8 * j + 2) + 8 * coin(w * 256 + 8 * j + 3)
                      + 16 * coin(w * 256 + 8 * j + 4) + 32 * coin(w * 256 + 8 * j + 5)
                      + 64 * coin(w * 256 + 8 * j + 6) + 128 * coin(w * 256 + 8 * j + 7)
     IN [k \in 1 .. 32 |-> byteAt(k - 1)]
+
+\* pivot digest for huge lists (n up to 2^31 - 1): the little-endian value is the pivot itself
+PivotDigestBig(p, salt) == LEBytes(p, 4) \o << 0, 0, 0, 0 >> \o [k \in 1 .. 24 |-> Filler(salt + 1, k)]
+
+\* the 256-position windows compute_shuffled_index looks at for index i (forward) / while inverting i (backward)
+RECURSIVE FwdWindows(_, _, _, _, _, _)
+FwdWindows(i, n, r, R, piv, bit) ==
+    IF r >= R THEN {}
+    ELSE {<< r, Max2(i, Flip(i, n, piv[r])) \div 256 >>}
+         \cup FwdWindows(RoundStep(i, n, piv[r], bit[r]), n, r + 1, R, piv, bit)
+RECURSIVE BwdWindows(_, _, _, _, _)
+BwdWindows(i, n, r, piv, bit) ==
+    IF r < 0 THEN {}
+    ELSE {<< r, Max2(i, Flip(i, n, piv[r])) \div 256 >>}
+         \cup BwdWindows(RoundStep(i, n, piv[r], bit[r]), n, r - 1, piv, bit)
 
 \* the oracle table for one shuffling context, as a sequence of <<pre-image, digest>> pairs
 OracleEntries(n, R, seed, piv, bit, salt) ==
